@@ -45,6 +45,10 @@ def _get(res, alpha, node):
     return res['%.2f' % alpha]['lab'].get(node)
 
 
+def swap_(x):
+    return 'B' if x == 'A' else 'A'
+
+
 def _close(a, b):
     return a is not None and b is not None and abs(a - b) <= TOL
 
@@ -61,11 +65,13 @@ def eval_graph(c, sub):
     labellings = list(itertools.product('AB', repeat=n))
     if c.get('focus'):
         labellings = [labellings[0], labellings[-1], tuple('AB'[i % 2] for i in range(n)), tuple('AB'[(i // 2) % 2] for i in range(n))]
+        if c.get('labs'):
+            labellings = [labellings[0], labellings[2], tuple(swap_(x) for x in labellings[2])][:c['labs']]
     swap = {'A': 'B', 'B': 'A'}
     case = lambda q: {'gconf': c, 'atoms': list(sub), 'query': q}
     starts = list(T) + [T[-1] + 2]
     if c.get('focus'):
-        starts = [T[0], T[1]]
+        starts = [T[0], T[1]][:c.get('starts_n', 2)]
     deltas = c.get('deltas', [0, 1, 2, 3])
     path_types = c.get('path_types', PATH_TYPES)
     Gs = {L: build_labelled(c, sub, L) for L in labellings}
@@ -201,7 +207,15 @@ def confs(tier, seed):
         # labellings, start in the first two instants, full-width delta, no renaming/sliding) keeps it cheap
         c4 = graphs.gconf('DynGraph', 0, 4, 3, 4)
         c4.update({'focus': True, 'deltas': [2, 3], 'path_types': ['shortest', 'foremost', 'fastest_shortest']})
-        return [c, c2, c3, c4]
+        # 5 nodes: the order in which hop ranks are discovered can differ from their numeric order (1, 3, 2) only from 5
+        # nodes on; narrowest menu (first instant, full-width delta, uniform + one mixed labelling and its swap)
+        c5 = graphs.gconf('DynGraph', 0, 5, 3, 4)
+        c5.update({'focus': True, 'deltas': [2], 'path_types': ['shortest', 'foremost'], 'starts_n': 1, 'labs': 3})
+        # contact sequences on 5 nodes x 5 instants (one interaction per instant): the order of discovery 1, 3, 2 needs a
+        # node first met far away and later reached by a shortcut, i.e. depth in time rather than width
+        c6 = graphs.gconf('DynGraph', 0, 5, 5, 5)
+        c6.update({'seq': True, 'focus': True, 'deltas': [4], 'path_types': ['shortest'], 'starts_n': 1, 'labs': 2})
+        return [c, c2, c3, c4, c5, c6]
     out = []
     for fl in (0, 1):
         out.append(graphs.gconf('DynGraph', fl, 3, 3, 9))
@@ -211,6 +225,12 @@ def confs(tier, seed):
         c4 = graphs.gconf('DynGraph', fl, 4, 4, 4)
         c4.update({'focus': True, 'deltas': [2, 3]})
         out.append(c4)
+    c5 = graphs.gconf('DynGraph', 0, 5, 3, 5)
+    c5.update({'focus': True, 'deltas': [2], 'path_types': ['shortest', 'foremost', 'fastest'], 'starts_n': 1, 'labs': 3})
+    out.append(c5)
+    c6 = graphs.gconf('DynGraph', 0, 5, 5, 5)
+    c6.update({'seq': True, 'focus': True, 'deltas': [3, 4], 'path_types': PATH_TYPES, 'labs': 3})
+    out.append(c6)
     return out
 
 
